@@ -140,6 +140,43 @@ for ty in ["dual64", "dual2_64", "dualsvec64_1", "dual2svec64_1", "dualsvec64_2"
         "none (loop-free over fixed sizes, all bit patterns, derivative groups symbolically absent)",
         "quick" if ty != "dual2svec64_2" else "thorough")
 
+# ------------------------------------------------------------------ C12 (bounded stand-in)
+LIN = "--features linalg"
+G12 = "BOUNDED: n = 2; Dual64 entries with re and eps integers in -2..=2; first pivot in {+-1,+-2} (implied by the grid)"
+P2 = "; ASSUMED: |det(A.re)| in {1,2,4,8} (second pivot a power of two, every division exact)"
+RE = "; SLICE: all real parts symbolic, all eps parts == 0"
+EPS = "; SLICE: real parts = one concrete table matrix (t1: row exchange, pivot 2, det -2; t3: no exchange, pivot -2, det 2), all eps parts symbolic"
+add("c12_linalg", "c12_lu_singular_n2", "C12",
+    "LU::new(A) is Err <=> det(A.re) == 0 (all candidate pivots zero at some step); on Ok determinant().re != 0 and finite; 4 cover goals (both singular causes, both pivot paths)",
+    G12 + "; all 8 parts symbolic", "quick", flags=LIN)
+add("c12_linalg", "c12_lu_singular_col0_fulldomain_n2", "C12",
+    "all f64 bit patterns: column 0 without an entry with |re| > 0 (zeros/NaN) => Err; Ok => some column-0 entry has |re| > 0",
+    "n = 2; full f64 domain for all 8 parts; only the first elimination step's comparison logic is characterised", "quick",
+    flags=LIN + " " + NOOVF)
+add("c12_linalg", "c12_lu_det_exact_n2", "C12",
+    "determinant() == a00*a11 - a01*a10 exactly: re, and eps = Jacobi's formula; sign correct with and without row exchange (both covered)",
+    G12 + "; all 8 parts symbolic; no further assumption", "thorough", flags=LIN)
+add("c12_linalg", "c12_lu_det_exact_n2_re", "C12",
+    "determinant exact (as above), eps stays 0", G12 + RE, "quick", flags=LIN)
+for t in (1, 3):
+    add("c12_linalg", f"c12_lu_det_exact_n2_eps_t{t}", "C12",
+        "determinant().eps == Jacobi's formula exactly (and re exact)", G12 + EPS, "quick", flags=LIN)
+add("c12_linalg", "c12_lu_solve_exact_n2_re", "C12",
+    "x = solve(b) equals the exact solution adj(A) b / det(A) (<=> A x == b exactly), real parts; eps stays 0; both pivot paths covered",
+    G12 + P2 + RE + "; b.re in -2..=2", "quick", flags=LIN)
+for t in (1, 3):
+    add("c12_linalg", f"c12_lu_solve_exact_n2_eps_t{t}", "C12",
+        "x = solve(b) equals adj(A) b / det(A) exactly in re AND eps (dual quotient rule; <=> A x == b)",
+        G12 + EPS + "; b.eps symbolic", "thorough", flags=LIN)
+for c in (0, 1):
+    add("c12_linalg", f"c12_lu_inverse_exact_n2_re_col{c}", "C12",
+        f"column {c} of inverse() == adj(A)/det(A) exactly (<=> A A^-1 == I), real parts; eps stays 0; both pivot paths covered",
+        G12 + P2 + RE, "thorough", flags=LIN)
+    for t in (1, 3):
+        add("c12_linalg", f"c12_lu_inverse_exact_n2_eps_t{t}_col{c}", "C12",
+            f"column {c} of inverse() == adj(A)/det(A) exactly in re AND eps (<=> A A^-1 == I with eps 0)",
+            G12 + EPS, "thorough", flags=LIN)
+
 # ------------------------------------------------------------------ C13
 NANB = "fixed sizes; all bit patterns, NaN parts compared as 'NaN maps to NaN'"
 FAM = [("dual", "quick"), ("dual2", "quick"), ("dualsvec_1", "quick"), ("dualsvec_2", "quick"),
